@@ -227,6 +227,12 @@ theorem RK_delayCore {s : SeqState} (hi : SeqInv s) (d : Int) (n : ChName) (atRe
             | ok l => simp [hl, bind, Except.bind] at h
           · exact addDelay_gn hc h
 
+theorem RK_delayChecked {s : SeqState} (hi : SeqInv s) (d : Int) (n : ChName) (atRest : Bool) :
+    RK s (delayChecked s d n atRest) := by
+  rcases delayChecked_cases s d n atRest with h | ⟨e, h⟩ <;> rw [h]
+  · exact RK_delayCore hi d n atRest
+  · exact RK_fail hi e
+
 theorem RK_alignLoop {s : SeqState} (hi : SeqInv s) (tf : Int) (l : List (ChName × Int)) :
     RK s (alignLoop tf l s) := by
   induction l generalizing s with
@@ -385,7 +391,7 @@ theorem stepRaw_RK {s : SeqState} (hd : DevOk s.dev) (hi : SeqInv s) (op : Op) :
     apply RK_store; apply RK_markNonEmpty
     repeat' split
     all_goals first | exact RK_fail hi _ | exact RK_addCore hi _ _ _ _
-  | delay d n atRest => exact RK_store _ (RK_delayCore hi _ _ _)
+  | delay d n atRest => exact RK_store _ (RK_delayChecked hi _ _ _)
   | align chs atRest =>
     simp only [stepRaw]
     apply RK_store
